@@ -13,7 +13,7 @@
 (***************************************************************************)
 EXTENDS Vocab, Naturals, TLC, Json, FiniteSets, Sequences
 
-VarRoles == {"plain", "count", "key", "rxkey", "neg", "negkey", "negrx", "macro", "macrokey", "setvarkey", "ctltarget", "updatetarget"}
+VarRoles == {"plain", "count", "key", "rxkey", "rxopen", "neg", "negkey", "negrx", "macro", "macrokey", "setvarkey", "ctltarget", "updatetarget"}
 OpArgs == {"good", "empty", "macro", "openmacro", "weird", "negated"}
 ActSpellings == {"bare", "value", "quoted", "empty", "macro", "openmacro", "emptymacro", "plus", "minus", "bang", "dup", "upper"}
 CtlVals == {"good", "boundary", "negative", "garbage", "empty"}
